@@ -41,7 +41,7 @@ type msgSpec struct {
 }
 
 type txSpec struct {
-	Signer int       `json:"signer"` // index into the user list: the account whose key signs (for a delegated message: the grantee); Via = "wasm": index into the contract list
+	Signer int       `json:"signer"`        // index into the user list: the account whose key signs (for a delegated message: the grantee); Via = "wasm": index into the contract list
 	Via    string    `json:"via,omitempty"` // "" = signed transaction; "wasm" = the custom messages of one response of contract #Signer, dispatched through the wasm binding's message router
 	Msgs   []msgSpec `json:"msgs"`
 	Note   string    `json:"note,omitempty"`
